@@ -207,6 +207,28 @@ def run(repo: Repo, rep: Report, tier: str) -> None:
                       f"{end} in {[a[-30:] for a in id_alts]}, side in {side_alts}" if ok_side else
                       f"{end} can be a relay pole ({[a[-30:] for a in id_alts]}) but its side is always {side_alts}: the wire is attached to a connector an electric pole does not have", rc.loc(wcall))
     rep.floor("C08-R4", "relay-chain wire ends that can be poles", n_ends, 3)
+    # ... and the converse: an end that can be the original endpoint (a combinator with two connectors) keeps the side it was given
+    n_orig = 0
+    for wcall in calls_in(rc.node, "WireConnection"):
+        for end in ("source", "sink"):
+            ide, side = kwarg(wcall, f"{end}_entity_id"), kwarg(wcall, f"{end}_side")
+            if ide is None:
+                continue
+            id_alts = crc.alts(ide)
+            if f"{end}_id" not in id_alts:
+                continue
+            # a hop written after the loop over the relay path starts at the last relay (the chain branch is taken for a non-empty path only):
+            # the original endpoint is a real alternative only for hops inside the loop (its first iteration) or hops with no relay alternative
+            inside_loop = any(isinstance(lp_, ast.For) and "relay_path" in norm(lp_.iter) and any(x is wcall for x in ast.walk(lp_)) for lp_ in walk_local(rc.node))
+            if any("relay_path" in a for a in id_alts) and not inside_loop:
+                continue
+            n_orig += 1
+            side_alts = crc.alts(side) if side is not None else ["<omitted>"]
+            ok_o = f"{end}_side" in side_alts
+            rep.check(ok_o, "C08-R4", f"_create_relay_chain: the {end} end of a hop that can be the original {end} keeps its connector side",
+                      f"side in {side_alts}" if ok_o else
+                      f"{end} can be `{end}_id` (a combinator) but its side is {side_alts}: the first/last hop of a relayed connection is attached to the wrong connector of the combinator", rc.loc(wcall))
+    rep.floor("C08-R4", "relay-chain wire ends that can be the original endpoints", n_orig, 2)
 
     # ---------------- R5 ---------------------------------------------------------------
     rep.rule("C08-R5", "axis agreement in occupancy/centre arithmetic of the layout modules: an expression `<pos>[i] +/- <footprint>[j] / 2` must have i == j "
